@@ -244,6 +244,95 @@ func rulesC12(c *Ctx) {
 	callScopeC12(c)
 	mergeConstC12(c, p.SSAFunc(lt))
 	wildcardCallC12(c)
+	phaseOrderC12(c)
+}
+
+// phaseOrderC12: subqueries are rewritten before the outer statement's
+// references are typed from them.
+func phaseOrderC12(c *Ctx) {
+	p := c.P
+	c.Rule("C12.phaseorder", "in RewriteFields the recursive rewrite of subquery sources comes before the pass that writes types into the statement's references (the closure handed to WalkFunc that stores VarRef.Type): a reference to a subquery's wildcard column is typed from the subquery's expanded, typed fields; typed first, it stays untyped or takes the type of a like-named tag")
+	f := p.SSAFunc(p.Method("SelectStatement", "RewriteFields"))
+	if f == nil {
+		c.Unk("C12.phaseorder", "(*SelectStatement).RewriteFields", 0, "anchor not found")
+		return
+	}
+	storesType := func(g *ssa.Function) bool {
+		for _, b := range g.Blocks {
+			for _, in := range b.Instrs {
+				if st, ok := in.(*ssa.Store); ok {
+					if fa, ok := st.Addr.(*ssa.FieldAddr); ok && fieldNameOf(fa) == "Type" && p.TypeStr(fa.X.Type()) == "*VarRef" {
+						return true
+					}
+				}
+			}
+		}
+		return false
+	}
+	var recs, walks []*ssa.Call
+	for _, b := range f.Blocks {
+		for _, in := range b.Instrs {
+			call, ok := in.(*ssa.Call)
+			if !ok {
+				continue
+			}
+			if call.Call.StaticCallee() == f {
+				recs = append(recs, call)
+				continue
+			}
+			for _, a := range call.Call.Args {
+				if mc, ok := a.(*ssa.MakeClosure); ok {
+					if g, ok := mc.Fn.(*ssa.Function); ok && storesType(g) {
+						walks = append(walks, call)
+					}
+				}
+			}
+		}
+	}
+	if len(recs) == 0 || len(walks) == 0 {
+		c.Unk("C12.phaseorder", "(*SelectStatement).RewriteFields: phases", f.Pos(), fmt.Sprintf("%d recursive rewrites and %d typing passes found", len(recs), len(walks)))
+		return
+	}
+	for i, w := range walks {
+		key := fmt.Sprintf("(*SelectStatement).RewriteFields: typing pass #%d", i+1)
+		// is a recursive rewrite still ahead of this pass?
+		seen := map[*ssa.BasicBlock]bool{}
+		work := append([]*ssa.BasicBlock{}, w.Block().Succs...)
+		ahead := false
+		for _, r := range recs {
+			if r.Block() == w.Block() {
+				for _, in := range w.Block().Instrs {
+					if in == ssa.Instruction(w) {
+						break
+					}
+					if in == ssa.Instruction(r) {
+						goto next
+					}
+				}
+				ahead = true
+			}
+		next:
+		}
+		for len(work) > 0 && !ahead {
+			x := work[len(work)-1]
+			work = work[:len(work)-1]
+			if seen[x] {
+				continue
+			}
+			seen[x] = true
+			for _, r := range recs {
+				if r.Block() == x {
+					ahead = true
+				}
+			}
+			work = append(work, x.Succs...)
+		}
+		if ahead {
+			c.Bad("C12.phaseorder", key, w.Pos(), "references are typed while a subquery source is still to be rewritten: a reference to a column the subquery's wildcard produces gets no field type")
+		} else {
+			c.OK("C12.phaseorder", key, w.Pos(), "every subquery source is rewritten before")
+		}
+	}
 }
 
 // wildcardCallC12: the types a wildcard may expand to are chosen by the
